@@ -22,6 +22,14 @@ def own_radii(preset_or_array, numbers):
     return np.array([vdw_radii[z] if not np.isnan(vdw_radii[z]) else covalent_radii[z] for z in numbers])
 
 
+def _mic_radii_matrix(atoms, radii):
+    """minimum-image distances minus radii (ASE, Minkowski reduced) for the whole structure"""
+    a = atoms.copy()
+    a.set_constraint()
+    d = a.get_all_distances(mic=bool(a.get_pbc().any()))
+    return d - radii[:, None] - radii[None, :]
+
+
 def bonding_graph(atoms, radii, thr):
     """Independent bonding graph: ASE minimum-image distances (Minkowski reduced) minus radii <= thr.
     Returns (certain adjacency, ambiguous adjacency) as lists of sorted neighbour lists (1-based)."""
@@ -106,6 +114,9 @@ def execute(job):
         if extra.get("lifted"):
             radii_arg = base.copy()
             radii_arg[np.argsort(perm)[np.array(extra["lifted"])] if opt.get("rigid") else np.array(extra["lifted"])] += 0.2
+    elif radii_spec == "custom_wide":
+        # strongly different radii inside one element: any confusion about WHICH atom a radius belongs to changes the bonding
+        radii_arg = own_radii("covalent", numbers) * rng.choice([0.8, 1.0, 1.2], len(numbers))
     else:
         radii_arg = radii_spec
     thr = p.get("bond_threshold", 0.65)
@@ -188,11 +199,56 @@ def execute(job):
         dims = []
         for c in clusters:
             d = {"n": len(c.indices)}
+            spied = {}
+            orig_gd = matid.geometry.get_dimensionality
+
+            def spy(system, cluster_threshold=None, dist_matrix_radii_mic_1x=None, return_clusters=False, radii="covalent", **kw):
+                spied.update(pos=np.array(system.get_positions()), thr=cluster_threshold, radii=radii if isinstance(radii, str) else np.array(radii, dtype=float),
+                             D=None if dist_matrix_radii_mic_1x is None else np.array(dist_matrix_radii_mic_1x, dtype=float))
+                return orig_gd(system, cluster_threshold, dist_matrix_radii_mic_1x=dist_matrix_radii_mic_1x, return_clusters=return_clusters,
+                               radii=radii, **kw)
+
+            matid.geometry.get_dimensionality = spy
             try:
                 d["shortcut"] = dim_enc(c.get_dimensionality())
             except Exception as e:
                 d["shortcut"] = -9
                 d["shortcut_error"] = "%s: %s" % (type(e).__name__, str(e)[:120])
+            finally:
+                matid.geometry.get_dimensionality = orig_gd
+            # what the shortcut handed to get_dimensionality: each atom must come with ITS radius, ITS row of the distance table
+            # and the clustering threshold (order-agnostic: the atoms are identified by their positions)
+            d["args_ok"], d["args_why"] = True, ""
+            if spied:
+                try:
+                    from ase.geometry import find_mic
+
+                    allpos = atoms.get_positions()
+                    who, worst = [], 0.0
+                    for p_ in spied["pos"]:
+                        dv, dl = find_mic(allpos - p_, atoms.get_cell(), atoms.get_pbc())
+                        who.append(int(np.argmin(dl)))
+                        worst = max(worst, float(dl.min()))
+                    if worst > 1e-6:
+                        d["args_why"] = "args not checked: evaluated atoms not found among the input's atoms"
+                    elif sorted(who) != sorted(int(i) for i in c.indices):
+                        d["args_ok"], d["args_why"] = False, "atoms evaluated are not the cluster's atoms"
+                    elif spied["thr"] is None or abs(float(spied["thr"]) - thr) > 1e-12:
+                        d["args_ok"], d["args_why"] = False, "threshold %r instead of %r" % (spied["thr"], thr)
+                    else:
+                        rad = spied["radii"]
+                        if isinstance(rad, str):
+                            rused = own_radii(rad, numbers[np.array(who)])
+                        else:
+                            rused = np.asarray(rad, dtype=float)
+                        if len(rused) != len(who) or not np.allclose(rused, rr[np.array(who)], atol=1e-9):
+                            d["args_ok"], d["args_why"] = False, "radii handed over do not belong to the atoms they are attached to"
+                        elif spied["D"] is not None:
+                            Dref = _mic_radii_matrix(atoms, rr)[np.ix_(who, who)]
+                            if np.asarray(spied["D"]).shape != Dref.shape or not np.allclose(np.asarray(spied["D"]), Dref, atol=1e-6):
+                                d["args_ok"], d["args_why"] = False, "distance table handed over does not belong to the atoms in their order"
+                except Exception as e:
+                    d["args_why"] = "args not checked: %s" % type(e).__name__
             sub = c.get_atoms()
             rsub = "covalent" if (isinstance(radii_arg, str) and radii_arg == "covalent") else rr[np.array(c.indices, dtype=int)]
             try:
